@@ -664,6 +664,15 @@ func (a *E3) litParamOrigin(lit *ssa.Function, i int) (O, bool) {
 	return out, found
 }
 
+// isSpinePtr: a pointer to a value of a container's spine type (*fields with `val fields`).
+func (a *E3) isSpinePtr(t types.Type) bool {
+	p, ok := t.Underlying().(*types.Pointer)
+	if !ok {
+		return false
+	}
+	return a.isSpine(p.Elem())
+}
+
 func (a *E3) structField(addrX ssa.Value, idx int) *types.Var {
 	t := addrX.Type().Underlying()
 	if p, ok := t.(*types.Pointer); ok {
@@ -777,6 +786,9 @@ func (a *E3) transfer(fn *ssa.Function, instr ssa.Instruction) {
 				if _, ok := x.Type().Underlying().(*types.Basic); ok {
 					a.set(x, oSCALAR)
 				}
+				if _, isAlloc := x.X.(*ssa.Alloc); !isAlloc && a.isSpinePtr(x.X.Type()) {
+					a.set(x, a.cell[c]|a.get(x.X)&oROOTS) // *s with s = &c.val: the spine of that container
+				}
 			}
 		} else {
 			a.set(x, oSCALAR)
@@ -814,6 +826,11 @@ func (a *E3) transfer(fn *ssa.Function, instr ssa.Instruction) {
 			if _, isAlloc := x.Addr.(*ssa.Alloc); !isAlloc && a.isContainerPtr(x.Addr.Type()) {
 				// *c = <struct>: spine and registered ego of an existing container overwritten at once
 				a.effect(fn, x, "store.struct", a.get(x.Addr)&oROOTS, v)
+			}
+			if _, isAlloc := x.Addr.(*ssa.Alloc); !isAlloc && a.isSpinePtr(x.Addr.Type()) {
+				// *s = <spine> through a pointer to a container's spine (a method of a named spine type with a pointer receiver, called
+				// on &c.val): the spine of whatever container the pointer came from is replaced
+				a.effect(fn, x, "store.val", a.get(x.Addr)&oROOTS, v)
 			}
 			a.addCell(a.cellOf(x.Addr), v)
 		}
